@@ -8,6 +8,8 @@
               (5 #bytes) (6 #bytes) (8 #bytes) (9 #bytes) = ops 0 1 3 4 on a raw byte string
               (possibly invalid UTF-8), decoded by Model.runes_of_bytes as Go decodes it;
               (7 #bytes) = decode only: observed ((runes of []rune(s)))
+              (10 w) = AddWord, (11 w) = Remove WITHOUT calling WordsCount afterwards:
+              observed () resp. (ret)
    observed = one entry per op:
               (0 w) -> (count)            WordsCount() after the call
               (1 w) -> (ret count)        return value of Remove, WordsCount() after
@@ -24,7 +26,8 @@ Open Scope Z_scope.
 
 Inductive hop :=
 | HAdd (w : list Z) | HRemove (w : list Z) | HReset | HQuery (t : list Z) | HProbe (w : list Z)
-| HDecode (r : list Z).
+| HDecode (r : list Z)
+| HAddQ (w : list Z) | HRemoveQ (w : list Z).
 
 Definition hop_of (s : sx) : option hop :=
   match s with
@@ -38,6 +41,8 @@ Definition hop_of (s : sx) : option hop :=
   | SList [SInt 8; SBytes b] => Some (HQuery (runes_of_bytes (map Z.of_N b)))
   | SList [SInt 9; SBytes b] => Some (HProbe (runes_of_bytes (map Z.of_N b)))
   | SList [SInt 7; SBytes b] => Some (HDecode (runes_of_bytes (map Z.of_N b)))
+  | SList [SInt 10; w] => option_map HAddQ (sx_ints w)
+  | SList [SInt 11; w] => option_map HRemoveQ (sx_ints w)
   | _ => None
   end.
 
@@ -55,6 +60,10 @@ Fixpoint corr (t : hashtrie) (ops : list hop) (obs : list sx) : verdict :=
           let '(t', r) := remove w t in
           vjoin (check_that (Bool.eqb r (ret =? 1)) (VMismatch 2))
          (vjoin (check_that (size t' =? cnt) (VMismatch 1)) (corr t' ops' obs'))
+      | HAddQ w, SList [] => corr (add_word w t) ops' obs'
+      | HRemoveQ w, SList [SInt ret] =>
+          let '(t', r) := remove w t in
+          vjoin (check_that (Bool.eqb r (ret =? 1)) (VMismatch 2)) (corr t' ops' obs')
       | HReset, SList [SInt cnt] =>
           let t' := reset t in
           vjoin (check_that (size t' =? cnt) (VMismatch 1)) (corr t' ops' obs')
@@ -99,6 +108,10 @@ Fixpoint prop (d : list (list Z)) (lastrm : option (list Z)) (ops : list hop) (o
           let d' := dict_remove w d in
           vjoin (check_that (Bool.eqb (ret =? 1) (wmem w d)) (VPropFail 2))
          (vjoin (check_that (cnt =? Z.of_nat (length d')) (VPropFail 3)) (prop d' (Some w) ops' obs'))
+      | HAddQ w, SList [] => prop (dict_add w d) None ops' obs'
+      | HRemoveQ w, SList [SInt ret] =>
+          vjoin (check_that (Bool.eqb (ret =? 1) (wmem w d)) (VPropFail 2))
+                (prop (dict_remove w d) (Some w) ops' obs')
       | HReset, SList [SInt cnt] =>
           vjoin (check_that (cnt =? 0) (VPropFail 3)) (prop [] None ops' obs')
       | HDecode _, _ => prop d lastrm ops' obs'
